@@ -56,3 +56,4 @@ require (
 replace github.com/lindb/lindb => /repo
 
 replace github.com/hashicorp/golang-lru/v2 => ../.build/third_party/golang-lru
+replace github.com/lindb/common => ../.build/third_party/common
